@@ -49,8 +49,12 @@ type HistGen struct {
 }
 
 var hashVals = []string{"a", "b", "c", "p", "q"}
-var hashValsDot = []string{"a", "b", "a.b", "a\\", "a\\.b", "b.c", "a.", ".", "\\", "c"}
+var hashValsDot = []string{"a", "b", "a.b", "a\\", "a\\.b", "b.c", "a.", ".", "\\", "c", ""}
 var rangeVals = []string{"a", "b", "c", "d", "e", "ab", "b.c", "c", "x"}
+
+// values of the table's own range key: the empty value is rejected there (index key attributes keep
+// the pinned behaviour of the library and stay non-empty in generated items)
+var rangeValsPrimary = []string{"a", "b", "c", "d", "e", "ab", "b.c", "c", "x", ""}
 var rangeValsNum = []string{"1", "2", "3", "10", "9", "5", "7"}
 var gVals = []string{"x", "y", "z", "x.y", "w"}
 var vVals = []string{"0", "1", "2", "3", "4", "5"}
@@ -75,7 +79,7 @@ func (g *HistGen) hashPool() []string {
 func (g *HistGen) genKey(t *TableSpec) Item {
 	k := Item{{[]byte(t.Hash[0]), g.keyVal(t.Hash[1], g.hashPool())}}
 	if t.Range != nil {
-		k = append(k, KV{[]byte(t.Range[0]), g.keyVal(t.Range[1], rangeVals)})
+		k = append(k, KV{[]byte(t.Range[0]), g.keyVal(t.Range[1], rangeValsPrimary)})
 	}
 	return k
 }
@@ -632,6 +636,15 @@ func (g *HistGen) genPages() {
 	g.ops = append(g.ops, op)
 }
 
+func hasEmptyKey(t *TableSpec, it Item) bool {
+	for _, kv := range it {
+		if (string(kv.K) == t.Hash[0] || (t.Range != nil && string(kv.K) == t.Range[0])) && len(kv.V.V) == 0 && (kv.V.T == "S" || kv.V.T == "N" || kv.V.T == "B") {
+			return true
+		}
+	}
+	return false
+}
+
 func (g *HistGen) genBatchWrite() {
 	live := g.live()
 	if len(live) == 0 {
@@ -667,10 +680,20 @@ func (g *HistGen) genBatchWrite() {
 		}
 		tr := TableReqs{Table: HexS(t.Name)}
 		for i := 0; i < n; i++ {
+			// several tables are visited in Go's random map order: only requests that cannot fail go into
+			// such a batch, so that the order is not observable
 			if g.r.Chance(60) {
-				tr.Reqs = append(tr.Reqs, WReq{Put: g.genItemFor(t)})
+				it := g.genItemFor(t)
+				for nt > 1 && hasEmptyKey(t, it) {
+					it = g.genItemFor(t)
+				}
+				tr.Reqs = append(tr.Reqs, WReq{Put: it})
 			} else {
-				tr.Reqs = append(tr.Reqs, WReq{Del: g.genKey(t)})
+				k := g.genKey(t)
+				for nt > 1 && hasEmptyKey(t, k) {
+					k = g.genKey(t)
+				}
+				tr.Reqs = append(tr.Reqs, WReq{Del: k})
 			}
 		}
 		total += n
